@@ -16,6 +16,7 @@ import (
 	"go/token"
 	"os"
 	"path/filepath"
+	"regexp"
 	"sort"
 	"strconv"
 	"strings"
@@ -31,13 +32,18 @@ var (
 	syncP  = flag.String("sync", "", "package dirs whose sync import and go statements are shimmed")
 	mapP   = flag.String("maporder", "", "package dirs whose range-over-map loops go through the map-order seam")
 	clockP = flag.String("clock", "", "package dirs whose time.Now goes through the clock seam")
+	rmwP   = flag.String("rmw", "", "package dirs whose read-modify-write statements on fields / package variables are split around a scheduling point")
+	rmwQ   = flag.String("rmwquiet", "", "package dirs (subset of -rmw) whose read-modify-write sites are checked for races but are not scheduling points")
+	pointR = flag.String("pointre", "", "semicolon-separated pkgdir=regexp entries: functions (Recv.Method or Func) matching get a scheduling point at entry")
 	pointF = flag.String("points", "", "comma-separated pkgdir:FuncOrRecv.Method entries that get a scheduling point at entry")
 )
 
 type fileJob struct {
 	path                     string
 	fuel, sync, mapo, clock  bool
+	rmw                      bool
 	points                   map[string]bool
+	pointRe                  *regexp.Regexp
 }
 
 func main() {
@@ -92,6 +98,7 @@ func main() {
 	addPkgs(*syncP, func(j *fileJob) { j.sync = true })
 	addPkgs(*mapP, func(j *fileJob) { j.mapo = true })
 	addPkgs(*clockP, func(j *fileJob) { j.clock = true })
+	addPkgs(*rmwP, func(j *fileJob) { j.rmw = true })
 	pointSet := map[string]map[string]bool{}
 	for _, e := range strings.Split(*pointF, ",") {
 		e = strings.TrimSpace(e)
@@ -105,6 +112,18 @@ func main() {
 		pointSet[kv[0]][kv[1]] = true
 	}
 
+	pointRes := map[string]*regexp.Regexp{}
+	for _, e := range strings.Split(*pointR, ";") {
+		e = strings.TrimSpace(e)
+		if e == "" {
+			continue
+		}
+		kv := strings.SplitN(e, "=", 2)
+		pointRes[kv[0]] = regexp.MustCompile(kv[1])
+		// make sure the package's files are visited
+		addPkgs(kv[0], func(j *fileJob) {})
+	}
+
 	overlay := map[string]string{}
 	paths := make([]string, 0, len(jobs))
 	for p := range jobs {
@@ -116,6 +135,7 @@ func main() {
 		j := jobs[p]
 		rel, _ := filepath.Rel(*repo, p)
 		j.points = pointSet[filepath.Dir(rel)]
+		j.pointRe = pointRes[filepath.Dir(rel)]
 		src, changed, err := rewrite(j, stats)
 		if err != nil {
 			fmt.Fprintf(os.Stderr, "instr: %s: %v\n", p, err)
@@ -203,7 +223,7 @@ func rewrite(j *fileJob, stats map[string]int) ([]byte, bool, error) {
 	if j.sync {
 		for _, im := range f.Imports {
 			if im.Path.Value == `"sync"` {
-				im.Path.Value = strconv.Quote(modPath + "/zzverif/vsync")
+				im.Path.Value = strconv.Quote(modPath + "/zzverif/vsched")
 				if im.Name == nil {
 					im.Name = ast.NewIdent("sync")
 				}
@@ -243,7 +263,7 @@ func rewrite(j *fileJob, stats map[string]int) ([]byte, bool, error) {
 		case *ast.FuncDecl:
 			curFunc = recvName(t)
 			if t.Body != nil {
-				if j.points != nil && j.points[curFunc] {
+				if (j.points != nil && j.points[curFunc]) || (j.pointRe != nil && j.pointRe.MatchString(curFunc)) {
 					t.Body.List = append([]ast.Stmt{callStmt("zzsched", "Point", strLit(filepath.Dir(rel)+"."+curFunc))}, t.Body.List...)
 					need["zzsched"] = modPath + "/zzverif/vsched"
 					changed = true
@@ -280,6 +300,13 @@ func rewrite(j *fileJob, stats map[string]int) ([]byte, bool, error) {
 
 	if j.sync {
 		rewriteGo(f)
+	}
+	if j.rmw {
+		if n := rewriteRMW(fset, f, rel); n > 0 {
+			need["zzsched"] = modPath + "/zzverif/vsched"
+			changed = true
+			stats["rmw_sites"] += n
+		}
 	}
 	if j.clock {
 		if rewriteClock(f) {
@@ -386,11 +413,18 @@ func hasDirective(cg *ast.CommentGroup) bool {
 // identifiers; otherwise bind via a func literal with the same argument list.
 func rewriteGo(f *ast.File) {
 	ast.Inspect(f, func(n ast.Node) bool {
-		blk, ok := n.(*ast.BlockStmt)
-		if !ok {
+		var list []ast.Stmt
+		switch t := n.(type) {
+		case *ast.BlockStmt:
+			list = t.List
+		case *ast.CaseClause:
+			list = t.Body
+		case *ast.CommClause:
+			list = t.Body
+		default:
 			return true
 		}
-		for i, st := range blk.List {
+		for i, st := range list {
 			gs, ok := st.(*ast.GoStmt)
 			if !ok {
 				continue
@@ -410,7 +444,7 @@ func rewriteGo(f *ast.File) {
 			inner := &ast.CallExpr{Fun: call.Fun, Args: args, Ellipsis: call.Ellipsis}
 			thunk := &ast.FuncLit{Type: &ast.FuncType{Params: &ast.FieldList{}}, Body: &ast.BlockStmt{List: []ast.Stmt{&ast.ExprStmt{X: inner}}}}
 			goCall := callStmt("zzsched", "Go", thunk)
-			blk.List[i] = &ast.BlockStmt{List: append(pre, goCall)}
+			list[i] = &ast.BlockStmt{List: append(pre, goCall)}
 		}
 		return true
 	})
@@ -435,4 +469,147 @@ func rewriteClock(f *ast.File) bool {
 			Names: []*ast.Ident{ast.NewIdent("_")}, Values: []ast.Expr{&ast.SelectorExpr{X: ast.NewIdent("time"), Sel: ast.NewIdent("Now")}}}}})
 	}
 	return hit
+}
+
+// pureChain: identifier or selector chain of identifiers (evaluating it twice is harmless).
+func pureChain(e ast.Expr) bool {
+	switch t := e.(type) {
+	case *ast.Ident:
+		return true
+	case *ast.SelectorExpr:
+		return pureChain(t.X)
+	case *ast.ParenExpr:
+		return pureChain(t.X)
+	case *ast.StarExpr:
+		return pureChain(t.X)
+	}
+	return false
+}
+
+func exprText(fset *token.FileSet, e ast.Expr) string {
+	var b bytes.Buffer
+	format.Node(&b, fset, e)
+	return b.String()
+}
+
+// sharedLvalue: a field (selector chain) or a package-level variable of this file.
+func sharedLvalue(e ast.Expr) bool {
+	switch t := e.(type) {
+	case *ast.SelectorExpr:
+		return pureChain(t.X)
+	case *ast.Ident:
+		if t.Obj == nil || t.Obj.Kind != ast.Var {
+			return false
+		}
+		vs, ok := t.Obj.Decl.(*ast.ValueSpec)
+		return ok && fileLevel[vs]
+	}
+	return false
+}
+
+var fileLevel = map[*ast.ValueSpec]bool{}
+
+var binOf = map[token.Token]token.Token{
+	token.ADD_ASSIGN: token.ADD, token.SUB_ASSIGN: token.SUB, token.MUL_ASSIGN: token.MUL, token.QUO_ASSIGN: token.QUO,
+	token.REM_ASSIGN: token.REM, token.AND_ASSIGN: token.AND, token.OR_ASSIGN: token.OR, token.XOR_ASSIGN: token.XOR,
+	token.SHL_ASSIGN: token.SHL, token.SHR_ASSIGN: token.SHR, token.AND_NOT_ASSIGN: token.AND_NOT,
+}
+
+// rewriteRMW splits   X = append(X, ...)  /  X++  /  X op= e   (X a field or package variable) into
+//
+//	{ zzt := X; zzsched.RMW(&X, site); X = append(zzt, ...) }
+//
+// so that the gap between the read and the write, which exists at machine level, is a
+// scheduling point and both halves are visible to the happens-before race check.
+func rewriteRMW(fset *token.FileSet, f *ast.File, rel string) int {
+	for _, d := range f.Decls {
+		if gd, ok := d.(*ast.GenDecl); ok && gd.Tok == token.VAR {
+			for _, sp := range gd.Specs {
+				if vs, ok := sp.(*ast.ValueSpec); ok {
+					fileLevel[vs] = true
+				}
+			}
+		}
+	}
+	n := 0
+	seq := 0
+	ast.Inspect(f, func(nd ast.Node) bool {
+		var list []ast.Stmt
+		switch t := nd.(type) {
+		case *ast.BlockStmt:
+			list = t.List
+		case *ast.CaseClause:
+			list = t.Body
+		case *ast.CommClause:
+			list = t.Body
+		default:
+			return true
+		}
+		for i, st := range list {
+			var x ast.Expr
+			var mk func(old ast.Expr) ast.Stmt
+			switch t := st.(type) {
+			case *ast.AssignStmt:
+				if len(t.Lhs) != 1 || len(t.Rhs) != 1 || !sharedLvalue(t.Lhs[0]) {
+					continue
+				}
+				if t.Tok == token.ASSIGN {
+					call, ok := t.Rhs[0].(*ast.CallExpr)
+					if !ok || len(call.Args) == 0 {
+						continue
+					}
+					if id, ok := call.Fun.(*ast.Ident); !ok || id.Name != "append" {
+						continue
+					}
+					if exprText(fset, call.Args[0]) != exprText(fset, t.Lhs[0]) {
+						continue
+					}
+					x = t.Lhs[0]
+					mk = func(old ast.Expr) ast.Stmt {
+						args := append([]ast.Expr{old}, call.Args[1:]...)
+						return &ast.AssignStmt{Lhs: []ast.Expr{x}, Tok: token.ASSIGN, Rhs: []ast.Expr{&ast.CallExpr{Fun: call.Fun, Args: args, Ellipsis: call.Ellipsis}}}
+					}
+				} else if op, ok := binOf[t.Tok]; ok {
+					x = t.Lhs[0]
+					rhs := t.Rhs[0]
+					mk = func(old ast.Expr) ast.Stmt {
+						return &ast.AssignStmt{Lhs: []ast.Expr{x}, Tok: token.ASSIGN, Rhs: []ast.Expr{&ast.BinaryExpr{X: old, Op: op, Y: &ast.ParenExpr{X: rhs}}}}
+					}
+				} else {
+					continue
+				}
+			case *ast.IncDecStmt:
+				if !sharedLvalue(t.X) {
+					continue
+				}
+				x = t.X
+				op := token.ADD
+				if t.Tok == token.DEC {
+					op = token.SUB
+				}
+				mk = func(old ast.Expr) ast.Stmt {
+					return &ast.AssignStmt{Lhs: []ast.Expr{x}, Tok: token.ASSIGN, Rhs: []ast.Expr{&ast.BinaryExpr{X: old, Op: op, Y: &ast.BasicLit{Kind: token.INT, Value: "1"}}}}
+				}
+			default:
+				continue
+			}
+			seq++
+			tmp := ast.NewIdent(fmt.Sprintf("zzrmw%d", seq))
+			site := fmt.Sprintf("%s:%d %s", rel, fset.Position(st.Pos()).Line, exprText(fset, x))
+			fn := "RMW"
+			for _, q := range strings.Split(*rmwQ, ",") {
+				if q != "" && filepath.Dir(rel) == q {
+					fn = "RMWQuiet"
+				}
+			}
+			list[i] = &ast.BlockStmt{List: []ast.Stmt{
+				&ast.AssignStmt{Lhs: []ast.Expr{tmp}, Tok: token.DEFINE, Rhs: []ast.Expr{x}},
+				callStmt("zzsched", fn, &ast.UnaryExpr{Op: token.AND, X: x}, strLit(site)),
+				mk(tmp),
+			}}
+			n++
+		}
+		return true
+	})
+	return n
 }
